@@ -142,3 +142,43 @@ contract(f"{CERT}.set_chain_length_issue_permissions",
          ensures={"every_issuing_group_of_the_new_certificate_has_chain_length_left_and_one_less_than_an_issuer_group": "all(g['minChainLength'] >= 1 and any(g['minChainLength'] == ig['minChainLength'] - 1 for ig in issue_groups(issuer.certificate)) for g in issue_groups(result.certificate))",
                   "the_issuer_attribute_is_set": "result.issuer is not None"},
          **S)
+
+
+# ------------------------------------------------------------------------------------------- issuing: what gets signed
+from pyvc.contracts import REGISTRY as _R
+from pyvc.values import TupleV as _TupleV
+
+
+def _log(name, *keys):
+    def g(e, st, env):
+        return st.ghost_append(name, _TupleV([env[k] for k in keys]))
+    return g
+
+
+_R[f"{CERT}.set_chain_length_issue_permissions"].callsite_ensures = []
+_R[f"{CERT}.check_issuer_has_subject_permissions"].ghost_effect = _log("permission_checks", "self", "issuer", "result")
+_R[f"{OWN}.check_enough_min_chain_length_for_issuer"].ghost_effect = _log("budget_checks", "self", "result")
+_ANYOWN = T.obj(OWN, certificate=T.opaque("object"), issuer=T.opaque("object"), key_id=T.int(0))
+OWNC_O = T.obj(OWN, certificate=cert_dict(groups=GROUPS, app_lens=(1,)), issuer=T.none, key_id=T.int(0))
+_REQ = T.obj(OWN, certificate=cert_dict(groups=[None, [1], ["all"]], app_lens=(1,)), issuer=T.none, key_id=T.int(0))
+contract(f"{OWN}.set_issuer", props=[], assumed=True, shapes={"self": _REQ, "issuer": OWNC_O}, returns=_ANYOWN, ghost_effect=_log("set_issuer_calls", "self", "issuer", "result"),
+         ensures={}, **{k: v for k, v in S.items() if k != "props"})
+contract(f"{OWN}.set_chain_length_issue_permissions", props=[], assumed=True, shapes={"self": _REQ, "issuer": OWNC_O}, returns=_ANYOWN,
+         ghost_effect=_log("chain_length_calls", "self", "issuer", "result"), ensures={}, **{k: v for k, v in S.items() if k != "props"})
+contract(f"{OWN}.set_issuer_as_self", props=[], assumed=True, shapes={"self": _REQ}, returns=_ANYOWN, ghost_effect=_log("self_issuer_calls", "self", "result"),
+         ensures={}, **{k: v for k, v in S.items() if k != "props"})
+contract(f"{OWN}.sign_certificate", props=[], assumed=True, shapes={"self": OWNC_O, "backend": T.opaque("ecdsa_backend"), "certificate": _REQ}, returns=_ANYOWN,
+         ghost_effect=_log("signed", "self", "certificate", "result"), ensures={}, **{k: v for k, v in S.items() if k != "props"})
+contract(f"{OWN}.issue_certificate", bound="requests with no, one explicit or one unrestricted issuing group; issuers with the permission groups of the other C09 contracts",
+         shapes={"self": OWNC_O, "backend": T.opaque("ecdsa_backend"), "certificate": _REQ}, returns=T.opaque("object"), may_raise=["KeyError"],
+         callsite_ensures=[],
+         ensures={"a_certificate_for_somebody_else_is_signed_only_after_both_issuing_checks_passed":
+                  "implies(len(ghost('signed')) == 1 and len(ghost('self_issuer_calls')) == 0, len(ghost('permission_checks')) == 1 and ghost('permission_checks')[0][0] is certificate and ghost('permission_checks')[0][1] is self and ghost('permission_checks')[0][2] and len(ghost('budget_checks')) == 1 and ghost('budget_checks')[0][0] is self and ghost('budget_checks')[0][1])",
+                  "what_is_signed_is_the_request_with_its_chain_length_reduced_below_this_issuer":
+                  "implies(len(ghost('signed')) == 1 and len(ghost('self_issuer_calls')) == 0, len(ghost('chain_length_calls')) == 1 and ghost('chain_length_calls')[0][0] is certificate and ghost('chain_length_calls')[0][1] is self and len(ghost('set_issuer_calls')) == 1 and ghost('set_issuer_calls')[0][0] is ghost('chain_length_calls')[0][2] and ghost('set_issuer_calls')[0][1] is self and ghost('signed')[0][1] is ghost('set_issuer_calls')[0][2])",
+                  "the_signed_certificate_is_what_is_returned_and_a_refused_request_comes_back_unsigned":
+                  "(result is ghost('signed')[0][2]) if len(ghost('signed')) == 1 else (result is certificate)",
+                  "at_most_one_signature_and_by_this_issuer": "len(ghost('signed')) <= 1 and implies(len(ghost('signed')) == 1, ghost('signed')[0][0] is self)"},
+         cover=["len(ghost('signed')) == 1 and len(ghost('self_issuer_calls')) == 0", "len(ghost('signed')) == 0"],
+         trusted=["OwnCertificate.set_chain_length_issue_permissions (the three-line wrapper re-boxing the result of the verified Certificate method) at the call site of issue_certificate: assumed", "OwnCertificate.set_issuer / set_issuer_as_self / sign_certificate at the call sites of issue_certificate: assumed to return some certificate (recorded in ghost logs); their bodies are not verified here"],
+         **S)
